@@ -1,7 +1,43 @@
-"""Configuration fragment for C16 (tasgrid command-line tool vs. library API); merged by props_config.py."""
+"""Configuration fragment for C16 (tasgrid command-line tool vs. the library API); merged by props_config.py.
+
+A case is a script of 2-8 invocations of the real tasgrid binary (about 15 ms each under ASan), so the case counts are
+much smaller than for the in-process properties.  "tasgrid_env": the supervisor must export VERIF_TASGRID (path printed by
+`build.py asan tasgrid`) to the driver; without it every case fails with an explicit message.
+"""
 import props_config as pc
 
-PROPS = {
-    "C16": pc.grid_prop(1500, 60000, size=200, tasgrid_env=True, floors={}),
+_CMD = {  # command floors: fraction of scripts that contain at least one accepted invocation of the command
+    "cmd:loadvalues": 0.3, "cmd:evaluate": 0.04, "cmd:integrate": 0.03, "cmd:differentiate": 0.02, "cmd:getcoefficients": 0.02, "cmd:setcoefficients": 0.04,
+    "cmd:getpoints": 0.03, "cmd:getneeded": 0.03, "cmd:getquadrature": 0.03, "cmd:getinterweights": 0.03, "cmd:getdiffweights": 0.02, "cmd:gethsupport": 0.03,
+    "cmd:evalhierarchyd": 0.03, "cmd:evalhierarchys": 0.015, "cmd:getpoly": 0.015, "cmd:getanisotropy": 0.015, "cmd:getpointsindexes": 0.02, "cmd:getneededindexes": 0.003,
+    "cmd:refine": 0.02, "cmd:refineaniso": 0.02, "cmd:refinesurp": 0.02, "cmd:cancelrefine": 0.02, "cmd:mergerefine": 0.01, "cmd:makeupdate": 0.03, "cmd:setconformal": 0.02,
+    "cmd:getconstructpnts": 0.05, "cmd:loadconstructed": 0.015, "cmd:makequadrature": 0.04, "cmd:summary": 0.02, "cmd:using-construct": 0.02,
+    "cmd:makeglobal": 0.08, "cmd:makesequence": 0.08, "cmd:makelocalpoly": 0.08, "cmd:makewavelet": 0.08, "cmd:makefourier": 0.08,
 }
-META = {}
+_FLOORS = dict(_CMD, **{"fmt:ascii": 0.4, "fmt:binary": 0.4, "in:ascii-matrix": 0.3, "in:binary-matrix": 0.3, "name:short": 0.3, "nontrivial": 0.15,
+                        "construct:with-data": 0.02, "load:refinement": 0.008, "load:reload": 0.03, "refine:scale": 0.002, "refine:limits": 0.01,
+                        "make:custom": 0.008, "make:conformal": 0.04, "make:transform": 0.1, "make:limits": 0.1, "make:aniso": 0.08})
+
+PROPS = {
+    "C16": pc.grid_prop(1500, 60000, size=400, tasgrid_env=True, floors=_FLOORS,
+                        quick=dict(cases=1500, size=400, wall=900, case_budget=60),
+                        thorough=dict(cases=60000, size=500, wall=3000, case_budget=60),
+                        assumptions=["sanitizers (ASan+UBSan) see every memory error on the executed paths of the tool and of the in-process mirror",
+                                     "the mirror (DESIGN.md Appendix C) transcribes the documented meaning of every command correctly: Doxygen/InterfaceCLI.md, `tasgrid <command> help`, and the "
+                                     "API documentation of the corresponding methods; the harness matrix readers/writers implement the documented matrix file format",
+                                     "the mirror runs the same library build as the tool, so a library defect that affects both sides equally is invisible here (it belongs to C01-C14)"]),
+}
+
+META = {
+    "C16": dict(technique="differential property-based testing (rapidcheck, structure-aware byte decoder) of the real tasgrid executable (ASan+UBSan build, one process per invocation) against an "
+                          "in-process mirror that executes the documented API call sequence; independent readers/writers for both matrix file formats; observable-digest and byte comparison of grid files",
+                text="Generated scripts of 2-8 tasgrid invocations share one grid file: a make command of any family (dimensions, outputs, depth, type, rule, order, alpha/beta, anisotropy, level-limit, transform, "
+                     "conformal and custom-rule files) followed by a state-aware choice among loadvalues, setcoefficients, refine/refineaniso/refinesurp (types, minimum growth, output, tolerance, criteria, limits, "
+                     "scale corrections), cancelrefine, mergerefine, makeupdate, setconformal, getconstructpnts, loadconstructed, makequadrature, a new make, and the read-only commands (getpoints, getneeded, "
+                     "getquadrature, getinterweights, getdiffweights, evaluate, integrate, differentiate, getcoefficients, evalhierarchyd/s, gethsupport, getpoly, getanisotropy, point indexes, summary, "
+                     "using-construct), with long and short option names, ASCII and binary grid files and ASCII and binary input and output matrices. After every invocation the tool must not crash, hang or report a "
+                     "sanitizer error; must accept what the help text and the API accept; every matrix it writes (-outputfile in both formats, -print) must equal the mirror's array to 1e-13 relative; the grid file "
+                     "it writes must read back to the mirror's observable digest, re-write to the mirror's bytes and be byte-identical to the file the mirror writes; read-only commands must leave the grid file "
+                     "untouched. Exploration.",
+                note=pc._TB + " The tool and the mirror share the library build; process start-up dominates the cost (about 15 ms per invocation), which bounds the number of scripts per run."),
+}
